@@ -441,3 +441,55 @@ def run_pattern_lang_case(pi, has_ver, wrap):
         return False
     extra = set(out) - set(d)
     return extra <= ({"pattern_version"} if lang == "stix" else set()) and (lang != "stix" or out.get("pattern_version") == "2.1")
+
+
+# ---- several extension entries in either order; hash dictionaries with every algorithm of the vocabulary in every place that takes them
+HASH21 = {"MD5": "0" * 32, "SHA-1": "0" * 40, "SHA-256": "0" * 64, "SHA-512": "0" * 128, "SHA3-256": "0" * 64, "SHA3-512": "0" * 128,
+          "SSDEEP": "3:AXGBicFlgVNhBGcL6wCrFQEv:AXGHsNhxLsr2C", "TLSH": "0" * 70}
+HASH_KEYS = list(HASH21)
+TOP_EXT = "extension-definition--12121212-f010-4473-83ec-1edf84858f4c"
+PROP_EXT = "extension-definition--34343434-f010-4473-83ec-1edf84858f4c"
+
+
+def extension_entries_and_hashes(kind: int, hi: int, order: int, wrap: bool) -> bool:
+    """
+    pre: 0 <= kind <= 4 and 0 <= hi <= 8 and 0 <= order <= 1
+    post: _
+    """
+    kind, hi, order, wrap = pick(kind, 5), pick(hi, 9), pick(order, 2), pickb(wrap)
+    with Native():
+        ok = run_ext_hash_case(kind, hi, order, wrap)
+    V.reached()
+    return ok
+
+
+def run_ext_hash_case(kind, hi, order, wrap):
+    hashes = dict(HASH21) if hi == 8 else {HASH_KEYS[hi]: HASH21[HASH_KEYS[hi]]}
+    common = {"spec_version": "2.1", "created": "2020-01-01T00:00:00.000Z", "modified": "2020-01-01T00:00:00.000Z"}
+    ents = [(TOP_EXT, {"extension_type": "toplevel-property-extension"}), (PROP_EXT, {"extension_type": "property-extension", "q": 1})]
+    if order:
+        ents.reverse()
+    if kind == 0:      # SDO with an unregistered toplevel-property extension (contributing ext_rank) next to an unregistered property extension
+        d = dict(common, type="identity", id="identity--" + gen.UU, name="n", identity_class="individual", ext_rank=5, extensions=dict(ents),
+                 external_references=[{"source_name": "s", "description": "", "hashes": hashes}])
+    elif kind == 1:    # SCO: registered extension next to the unregistered ones
+        d = {"type": "file", "spec_version": "2.1", "id": "file--" + gen.UU, "name": "f", "hashes": hashes, "ext_rank": 5,
+             "extensions": dict(ents + [("ntfs-ext", {"sid": "s", "alternate_data_streams": [{"name": "a", "hashes": hashes}]})])}
+    elif kind == 2:
+        d = {"type": "artifact", "spec_version": "2.1", "id": "artifact--" + gen.UU, "url": "http://x", "hashes": hashes}
+    elif kind == 3:
+        d = dict(common, type="malware", id="malware--" + gen.UU, name="m", is_family=False,
+                 external_references=[{"source_name": "s", "external_id": "1", "hashes": hashes}, {"source_name": "t", "url": "http://x", "hashes": hashes}])
+    else:
+        d = {"type": "file", "spec_version": "2.1", "id": "file--" + gen.UU, "name": "f",
+             "extensions": {"windows-pebinary-ext": {"pe_type": "exe", "file_header_hashes": hashes, "sections": [{"name": "s", "hashes": hashes}]}}}
+    if not accepted_and_preserved(d, "2.1", "objects"):
+        return False
+    if wrap:
+        b = {"type": "bundle", "id": "bundle--" + gen.UU, "objects": [d]}
+        try:
+            o = stix2.parse(b, allow_custom=False)
+        except (STIXError, ValueError, TypeError):
+            return False
+        return preserved(b, json.loads(o.serialize(include_optional_defaults=True)))
+    return True
